@@ -385,3 +385,68 @@ func H_C15_sameNameTwoDirs() {
 	}
 	vfReach("rendered")
 }
+
+// c15Chain: a chain of extends / import clauses that crosses directories, every clause with
+// a relative name: /pages/home.jet extends ../layouts/mid.jet, which extends base.jet (or
+// sub/base.jet, or ./base.jet) and imports widgets.jet - with decoys of the same names next
+// to the page the lookup started from. Each name resolves against the directory of the
+// template that contains the clause.
+func c15Chain() (out string, err error, seen []string) {
+	sp := ndChoice("spelling", 3)
+	second := ndChoice("second", 3) // mid's own clause: extends, import, both
+	base := []string{"base.jet", "./base.jet", "sub/../base.jet"}[sp]
+	mid := ""
+	if second != 1 {
+		mid += `{{ extends "` + base + `" }}`
+	}
+	if second != 0 {
+		mid += `{{ import "widgets.jet" }}`
+	}
+	if second == 1 {
+		mid += `<mid>{{ yield badge() }}{{ block title() }}mid-title{{ end }}</mid>`
+	} else {
+		mid += `{{ block title() }}mid-title{{ end }}`
+	}
+	l := &c15Loader{files: map[string]string{
+		"/pages/home.jet":      `{{ extends "../layouts/mid.jet" }}{{ block body() }}home-body{{ end }}`,
+		"/layouts/mid.jet":     mid,
+		"/layouts/base.jet":    `<base>{{ block title() }}t{{ end }}|{{ block body() }}b{{ end }}|{{ block badge() }}base-badge{{ end }}</base>`,
+		"/layouts/widgets.jet": `{{ block badge() }}layout-badge{{ end }}`,
+		"/pages/base.jet":      `<pages-base>{{ block title() }}t{{ end }}{{ block body() }}b{{ end }}{{ block badge() }}pb{{ end }}</pages-base>`,
+		"/pages/widgets.jet":   `{{ block badge() }}pages-badge{{ end }}`,
+		"/base.jet":            `<root-base></root-base>`,
+		"/widgets.jet":         `{{ block badge() }}root-badge{{ end }}`,
+	}}
+	set := NewSet(l, DevelopmentMode(ndBool("dev")))
+	t, err := set.GetTemplate("/pages/home.jet")
+	if err != nil {
+		return "", err, l.seen
+	}
+	var buf bytes.Buffer
+	err = t.Execute(&buf, nil, nil)
+	want := "<base>mid-title|home-body|base-badge</base>"
+	switch second {
+	case 1:
+		want = "<mid>layout-badgemid-title</mid>"
+	case 2:
+		want = "<base>mid-title|home-body|layout-badge</base>"
+	}
+	vfNote(buf.String())
+	vfAssert(err == nil && buf.String() == want, "every relative name in a chain resolves against the template that contains the clause")
+	return buf.String(), err, l.seen
+}
+
+// H_C15_chainAcrossDirs: see c15Chain; the loader is only ever asked for clean absolute
+// paths below /pages (the page itself) and /layouts (everything it reaches).
+//
+//gosym:reach rendered
+func H_C15_chainAcrossDirs() {
+	_, err, seen := c15Chain()
+	vfReach("rendered")
+	vfAssert(err == nil, "the chain loads and renders")
+	for _, p := range seen {
+		vfAssert(cleanAbs(p), "loader: path is not clean and absolute")
+		ok := p == "/pages/home.jet" || (len(p) > 9 && p[:9] == "/layouts/")
+		vfAssert(ok, "nothing is looked up next to the page the lookup started from")
+	}
+}
